@@ -480,6 +480,13 @@ def model_apply(S_: Side, op):
     root = S_.root(op)
     T = op['tag']
     v = S_.value(op['v'])
+    # a matching tag on a *args position that holds no value: writing there
+    # would leave a hole - unspecified, whichever node is visited first
+    for m in enum_nodes(root):
+      for key, ts in m.tags.items():
+        if (ts and matches(ts, T) and isinstance(key, int)
+            and key >= m.sv.P and key - m.sv.P >= len(m.tail)):
+          raise Skip()
     changed = True
     rounds = 0
     while changed:
